@@ -245,6 +245,45 @@ def run_all(items):
         return pool.map(one_program, items, chunksize=1)
 
 
+def one_callgraph(item):
+    base = tempfile.mkdtemp(prefix='tealer-verif-cg-')
+    try:
+        wd = os.path.join(base, 'cg')
+        code, so, se = run_cli(["print", "call-graph", "--contracts", "{file}"], item['src'], wd)
+        try:
+            bad = check_outputs('print-call-graph', item['src'], wd, so)
+        except Exception as e:  # noqa
+            import traceback
+            bad = [('harness', 'print-call-graph', traceback.format_exc()[-800:])]
+        return {'name': item['name'], 'src': item['src'], 'exit': code, 'bad': bad}
+    finally:
+        shutil.rmtree(base, ignore_errors=True)
+
+
+def callgraph_export(cx):
+    """C05, last clause: the exported call graph has an edge f -> g exactly for the retained call sites — for every declared
+    version that has subroutines (4..8), on the call-heavy adversarial layouts and a sample of the call-loop family"""
+    rng = random.Random(f"cg/{cx.seed}")
+    srcs = [(k, ADVERSARIAL[k]) for k in ('dead-calls', 'empty-sub', 'call-last', 'recursion', 'shared-sub-twice', 'dead-two-succ-in-sub')]
+    items = []
+    for k, src in srcs:
+        for v in ((4, 5, 6, 7, 8) if not cx.quick() else (4, rng.choice([5, 6, 7]), 8)):
+            items.append({'name': f'cg:{k}@v{v}', 'src': src.replace('#pragma version 8', f'#pragma version {v}')})
+    for i in rng.sample(range(gen.N_CALLFAM), 6 if cx.quick() else 36):
+        items.append({'name': f'cg:callfam/{cx.seed}/{i}', 'src': gen.callfam(cx.seed, i)[0]})
+    with multiprocessing.get_context('fork').Pool(min(16, os.cpu_count() or 4)) as pool:
+        res = pool.map(one_callgraph, items, chunksize=1)
+    for r in res:
+        for (kind, where, detail) in r['bad']:
+            if kind == 'harness': raise RuntimeError(detail)
+            cx.violations.append({'kind': 'call-graph-export', 'program': r['name'], 'prop': 'C05', 'field': kind, 'where': where, 'detail': detail, 'src': r['src'], 'env': None})
+        if r['exit'] != 0:
+            cx.violations.append({'kind': 'call-graph-export', 'program': r['name'], 'prop': 'C05', 'field': 'exit', 'where': 'print call-graph', 'detail': f"`tealer print call-graph` exit status {r['exit']}", 'src': r['src'], 'env': None})
+        cx.distinct.add(r['name'])
+    cx.evaluations += len(res)
+    return len(res)
+
+
 def c17(cx):
     n = 10 if cx.quick() else 120
     items = programs(cx, n)
